@@ -4,3 +4,4 @@ import AnnVerif.Props.C17
 import AnnVerif.Props.C15
 import AnnVerif.Props.C16
 import AnnVerif.Props.C14
+import AnnVerif.Props.C03
